@@ -149,10 +149,11 @@ FULL STATEMENTS (both FALSE on the unchanged tree — `Witness.fmt_preserves_tok
 
 PROVED PART: both hold for every input in the fragment `W` (`inW`, Fragment.lean — an explicit
 DECIDABLE predicate on rune strings, no size bound): plain words, any non-CR white space /
-indentation / blank lines, arbitrarily nested `… {⏎ … ⏎}` blocks, comments (own line or after a
+indentation / blank lines, arbitrarily nested `… {⏎ … ⏎}` blocks, simple double-quoted strings
+(one line, no backslash, followed by white space), comments (own line or after a
 word; any text without backslash / trailing blank).  NOT covered by these two
-theorems (only by the correspondence stream and the impl-side oracle): quoted / backquoted /
-heredoc tokens, placeholders `{x}`, line continuations, `#`/`"`/`<` inside words, CR, comments
+theorems (only by the correspondence stream and the impl-side oracle): multi-line or escaped
+quoted strings, backquoted / heredoc tokens, placeholders `{x}`, line continuations, `#`/`"`/`<` inside words, CR, comments
 directly after a brace on the same line or directly before `{`.
 -/
 
@@ -182,6 +183,9 @@ example : inW (runes "  example.com   {\n\n\n  reverse_proxy  10.0.0.1:80\n\than
   decide
 set_option maxRecDepth 100000 in
 example : inW (runes "{\n  admin off\n}\n:443 {\n}\n") = true := by decide
+set_option maxRecDepth 100000 in
+example : inW (runes "example.com {\n  respond   \"Hello,  {world} # `x`\"  200\n\theader X-A \"\" # c\n}\n") = true := by
+  decide
 set_option maxRecDepth 100000 in
 example : inW (runes "# global\n\n\nexample.com {\n  # \"no\" <<tls> here\n  admin off # really\n}\n\n#\n# end") = true := by decide
 -- excluded, and indeed failing: one-line block, dangling brace, brace first on its line, CR inside a word
